@@ -981,3 +981,130 @@ pub proof fn lemma_two_keys_lexicographic(major: Seq<char>, minor: Seq<char>, ro
     lemma_filter_sorted(a2, g2, m, hk);
     lemma_filter_sorted(a2, g2, keyed(g1, m), p1);
 }
+// ================= C07: any number of --sort-by options are lexicographic keys =================
+pub open spec fn tail_t(t: Seq<String>) -> Seq<String> { t.subrange(1, t.len() as int) }
+// the first given key is applied LAST (outermost): the result of sorting by the other keys, sorted stably by it
+pub open spec fn msort(texts: Seq<String>, rows: Seq<Context>) -> Seq<Context>
+    decreases texts.len()
+{
+    if texts.len() == 0 { rows } else { isort(sort_asc_of(texts[0]@), getter_of(texts[0]@), Seq::empty(), msort(tail_t(texts), rows)) }
+}
+// lexicographically sorted: sorted by the first key, and every tie class of the first key lexicographically sorted by the rest
+pub open spec fn lex_sorted(texts: Seq<String>, l: Seq<Context>) -> bool
+    decreases texts.len()
+{
+    if texts.len() == 0 { true } else {
+        sorted_rows(sort_asc_of(texts[0]@), getter_of(texts[0]@), l)
+        && forall|k: JsonValue| lex_sorted(tail_t(texts), #[trigger] tie_class(getter_of(texts[0]@), k, l))
+    }
+}
+pub proof fn lemma_filter_commutes<A>(l: Seq<A>, p: spec_fn(A) -> bool, q: spec_fn(A) -> bool)
+    ensures l.filter(p).filter(q) == l.filter(q).filter(p),
+    decreases l.len(),
+{
+    reveal(Seq::filter);
+    if l.len() > 0 {
+        let dl = l.drop_last();
+        lemma_filter_commutes(dl, p, q);
+        let x = l.last();
+        assert(l.filter(p) == (if p(x) { dl.filter(p).push(x) } else { dl.filter(p) }));
+        assert(l.filter(q) == (if q(x) { dl.filter(q).push(x) } else { dl.filter(q) }));
+        if p(x) { assert(dl.filter(p).push(x).drop_last() =~= dl.filter(p)); assert(dl.filter(p).push(x).filter(q) == (if q(x) { dl.filter(p).filter(q).push(x) } else { dl.filter(p).filter(q) })); }
+        if q(x) { assert(dl.filter(q).push(x).drop_last() =~= dl.filter(q)); assert(dl.filter(q).push(x).filter(p) == (if p(x) { dl.filter(q).filter(p).push(x) } else { dl.filter(q).filter(p) })); }
+    } else {
+        assert(l.filter(p) =~= Seq::<A>::empty());
+        assert(l.filter(q) =~= Seq::<A>::empty());
+    }
+}
+// a subsequence of a lexicographically sorted list is lexicographically sorted
+pub proof fn lemma_lex_filter(texts: Seq<String>, l: Seq<Context>, p: spec_fn(Context) -> bool)
+    requires lex_sorted(texts, l),
+    ensures lex_sorted(texts, l.filter(p)),
+    decreases texts.len(),
+{
+    if texts.len() > 0 {
+        let g = getter_of(texts[0]@); let a = sort_asc_of(texts[0]@);
+        lemma_filter_sorted(a, g, l, p);
+        assert forall|k: JsonValue| lex_sorted(tail_t(texts), #[trigger] tie_class(g, k, l.filter(p))) by {
+            let q = |x: Context| keq(key_of(g, x), k);
+            lemma_filter_commutes(l, p, q);
+            assert(tie_class(g, k, l.filter(p)) == tie_class(g, k, l).filter(p));
+            assert(lex_sorted(tail_t(texts), tie_class(g, k, l)));
+            lemma_lex_filter(tail_t(texts), tie_class(g, k, l), p);
+        }
+    }
+}
+pub proof fn lemma_msort_lex(texts: Seq<String>, rows: Seq<Context>)
+    requires key_order_total(),
+    ensures lex_sorted(texts, msort(texts, rows)), // @obl THY.C07.any_number_of_keys_lexicographic : C07 C03
+    decreases texts.len(),
+{
+    if texts.len() > 0 {
+        let g = getter_of(texts[0]@); let a = sort_asc_of(texts[0]@);
+        let e = Seq::<Context>::empty();
+        let inner = msort(tail_t(texts), rows);
+        lemma_msort_lex(tail_t(texts), rows);
+        assert(sorted_rows(a, g, e));
+        lemma_isort_sorted(a, g, e, inner);
+        let res = isort(a, g, e, inner);
+        assert forall|k: JsonValue| lex_sorted(tail_t(texts), #[trigger] tie_class(g, k, res)) by {
+            lemma_isort_stable(a, g, e, inner, k);
+            assert(tie_class(g, k, e) =~= e) by { reveal(Seq::filter); }
+            assert(e.add(tie_class(g, k, keyed(g, inner))) =~= tie_class(g, k, keyed(g, inner)));
+            let hk = |x: Context| g.get_spec(&x) is Some;
+            let q = |x: Context| keq(key_of(g, x), k);
+            lemma_lex_filter(tail_t(texts), inner, hk);
+            lemma_lex_filter(tail_t(texts), inner.filter(hk), q);
+        }
+    }
+}
+// ... and msort IS what repeated --sort-by compute (the chain go() is verified to build applies the LAST given key first)
+pub proof fn lemma_sorters_is_msort(texts: Seq<String>, rows: Seq<Context>)
+    requires key_order_total(),
+    ensures sorters_spec(texts, None, rows) == msort(texts, rows),
+    decreases texts.len(),
+{
+    if texts.len() == 0 { }
+    else if texts.len() == 1 {
+        reveal_with_fuel(sorters_spec, 2);
+        reveal_with_fuel(msort, 2);
+        assert(texts.drop_last().len() == 0);
+        assert(tail_t(texts).len() == 0);
+        lemma_sort_spec_is_isort(texts[0]@, rows);
+        assert(texts.last() == texts[0]);
+    } else {
+        let dl = texts.drop_last();
+        let r1 = sort_spec(texts.last()@, None, rows);
+        lemma_sorters_is_msort(dl, r1);
+        // msort(dl, sort_last(rows)) == msort(texts, rows): peel the major key on both sides
+        lemma_msort_snoc(texts, rows);
+    }
+}
+pub proof fn lemma_msort_snoc(texts: Seq<String>, rows: Seq<Context>)
+    requires key_order_total(), texts.len() >= 1,
+    ensures msort(texts.drop_last(), sort_spec(texts.last()@, None, rows)) == msort(texts, rows),
+    decreases texts.len(),
+{
+    let dl = texts.drop_last();
+    let r1 = sort_spec(texts.last()@, None, rows);
+    if texts.len() == 1 {
+        reveal_with_fuel(msort, 2);
+        assert(dl.len() == 0);
+        assert(tail_t(texts).len() == 0);
+        lemma_sort_spec_is_isort(texts[0]@, rows);
+        assert(texts.last() == texts[0]);
+    } else {
+        let t1 = tail_t(texts);
+        assert(t1.drop_last() =~= tail_t(dl));
+        assert(t1.last() == texts.last());
+        assert(dl[0] == texts[0]);
+        lemma_msort_snoc(t1, rows);
+    }
+}
+pub proof fn lemma_repeated_sort_by_lexicographic(texts: Seq<String>, rows: Seq<Context>)
+    requires key_order_total(),
+    ensures lex_sorted(texts, sorters_spec(texts, None, rows)), // @obl THY.C07.sorters_spec_is_lexicographic : C07 C03
+{
+    lemma_sorters_is_msort(texts, rows);
+    lemma_msort_lex(texts, rows);
+}
